@@ -11,6 +11,7 @@
 
 #include <etl/cmath.hpp>
 
+#include <array>
 #include <cfloat>
 #include <cmath>
 #include <cstring>
@@ -57,6 +58,12 @@ std::vector<LD> boundary(bool small)
     add(std::numeric_limits<LD>::denorm_min());
     add(LDBL_MIN);
     add(std::nextafter(LDBL_MIN, 0.0L));
+    // small odd/even multiples of denorm_min and the lowest normal binade (halving such a value is inexact:
+    // added after seeded breakage c16_remainder_subnormal_halving)
+    for (int k = 2; k <= 9; ++k) { add(LD(k) * std::numeric_limits<LD>::denorm_min()); }
+    for (int k = 1; k <= 4; ++k) { add(LDBL_MIN + LD(k) * std::numeric_limits<LD>::denorm_min()); }
+    add(LDBL_MIN * 1.5L);
+    add(LDBL_MIN / 2);
     add(LDBL_MAX);
     add(std::numeric_limits<LD>::infinity());
     v.push_back(std::numeric_limits<LD>::quiet_NaN());
@@ -87,6 +94,32 @@ std::vector<LD> boundary(bool small)
         add(std::nextafter(p, LD(0)));
         add(std::nextafter(p, std::numeric_limits<LD>::infinity()));
     }
+    return v;
+}
+
+// the set for the binary functions: ~80 values (signed zeros, small multiples of denorm_min, the lowest normal
+// binade, small integers and halves, 2^63 neighbours, limits, infinities, NaN)
+std::vector<LD> boundary_binary()
+{
+    std::vector<LD> v;
+    auto add = [&](LD x) {
+        v.push_back(x);
+        v.push_back(-x);
+    };
+    LD const dm = std::numeric_limits<LD>::denorm_min();
+    add(0.0L);
+    for (int k = 1; k <= 9; ++k) { add(LD(k) * dm); }
+    for (int k = 0; k <= 3; ++k) { add(LDBL_MIN + LD(k) * dm); }
+    add(LDBL_MIN / 2);
+    add(LDBL_MIN * 1.5L);
+    for (LD x : {0.5L, 1.0L, 1.5L, 2.0L, 2.5L, 3.0L, 7.0L, 0.1L, 1e10L}) { add(x); }
+    add(0x1p63L);
+    add(0x1p63L + 1.0L);
+    add(0x1p64L);
+    add(LDBL_MAX);
+    add(LDBL_MAX / 2);
+    add(std::numeric_limits<LD>::infinity());
+    v.push_back(std::numeric_limits<LD>::quiet_NaN());
     return v;
 }
 
@@ -146,6 +179,76 @@ void binary(Ctx& c, char const* name, std::vector<LD> const& B, FE fe, FS fs)
     c.r.sample(cat(subject, " over ", B.size(), "^2 boundary pairs"));
 }
 
+// fmod / remainder in the gradual-underflow range on the CONSTANT-EVALUATION path of float and double (at run time
+// these two types go to the compiler builtin, so only a constexpr table reaches the library's own code)
+constexpr std::size_t NG = 22;
+template <typename T>
+constexpr auto subnormal_grid() -> std::array<T, NG>
+{
+    std::array<T, NG> g{};
+    T const dm = std::numeric_limits<T>::denorm_min();
+    T const mn = std::numeric_limits<T>::min();
+    for (std::size_t k = 0; k < 13; ++k) { g[k] = T(k + 1) * dm; }
+    for (std::size_t k = 0; k < 5; ++k) { g[13 + k] = mn + T(k) * dm; }
+    g[18] = mn / 2;
+    g[19] = mn * T(1.5);
+    g[20] = mn * 2 + dm;
+    g[21] = mn * 3;
+    return g;
+}
+template <typename T, bool Rem>
+constexpr auto subnormal_table() -> std::array<T, NG * NG * 2>
+{
+    std::array<T, NG * NG * 2> r{};
+    auto const g = subnormal_grid<T>();
+    for (std::size_t i = 0; i < NG; ++i) {
+        for (std::size_t j = 0; j < NG; ++j) {
+            if constexpr (Rem) {
+                r[(i * NG + j) * 2]     = etl::remainder(g[i], g[j]);
+                r[(i * NG + j) * 2 + 1] = etl::remainder(-g[i], g[j]);
+            } else {
+                r[(i * NG + j) * 2]     = etl::fmod(g[i], g[j]);
+                r[(i * NG + j) * 2 + 1] = etl::fmod(-g[i], g[j]);
+            }
+        }
+    }
+    return r;
+}
+template <typename T>
+bool same_bits(T a, T b)
+{
+    if (a != a || b != b) { return (a != a) && (b != b); }
+    return a == b && std::signbit(a) == std::signbit(b);
+}
+template <typename T, bool Rem>
+void constexpr_subnormal(mc::Reporter& r, char const* tn)
+{
+    static constexpr auto tbl = subnormal_table<T, Rem>();
+    auto const g              = subnormal_grid<T>();
+    std::string const subject = cat("etl::", Rem ? "remainder" : "fmod", " (constant evaluation)");
+    std::uint64_t ev = 0;
+    for (std::size_t i = 0; i < NG; ++i) {
+        for (std::size_t j = 0; j < NG; ++j) {
+            for (int neg = 0; neg < 2; ++neg) {
+                volatile T vx = neg ? -g[i] : g[i];
+                volatile T vy = g[j];
+                T const x = vx, y = vy;
+                T const want = Rem ? std::remainder(x, y) : std::fmod(x, y);
+                T const got  = tbl[(i * NG + j) * 2 + std::size_t(neg)];
+                ++ev;
+                if (!same_bits(got, want)) {
+                    r.violation("C16", subject, "subnormal_range", cat(Rem ? "remainder" : "fmod", "(", tn, " ", show(LD(x)), ", ", show(LD(y)), ")"),
+                        cat("constant-evaluated ", show(LD(got)), " libm ", show(LD(want))));
+                }
+                r.outcome(mc::hash_str(show(LD(want))));
+            }
+        }
+    }
+    r.count("evaluations", ev);
+    r.count("distinct_nontrivial", ev);
+    r.sample(cat(subject, " ", tn, ": x,y in {k*denorm_min (k=1..13), min+k*denorm_min (k=0..4), min/2, 1.5min, 2min+dm, 3min}, both signs of x"));
+}
+
 // lrint/llrint are only defined by C when the rounded value is representable
 bool fits_ll(LD x) { return x == x && x > -0x1p63L && x < 0x1p63L; }
 
@@ -183,7 +286,7 @@ int main(int argc, char** argv)
     });
     m.job("long double/binary", {"quick", "thorough"}, [](mc::Reporter& r) {
         Ctx c{r};
-        auto const B = boundary(true);
+        auto const B = boundary_binary();
         binary(c, "copysign", B, [](LD x, LD y) { return etl::copysign(x, y); }, [](LD x, LD y) { return std::copysign(x, y); });
         // the sign of fmin/fmax of two zeros of opposite sign is unspecified by C: compared as magnitude only
         auto zz = [](LD x, LD y, LD r) { return (x == 0 && y == 0) ? std::fabs(r) : r; };
@@ -194,6 +297,12 @@ int main(int argc, char** argv)
         binary(c, "remainder", B, [](LD x, LD y) { return etl::remainder(x, y); }, [](LD x, LD y) { return std::remainder(x, y); });
         r.count("evaluations", c.evals);
         r.count("distinct_nontrivial", c.nontrivial);
+    });
+    m.job("constexpr-subnormal/fmod+remainder", {"quick", "thorough"}, [](mc::Reporter& r) {
+        constexpr_subnormal<float, false>(r, "float");
+        constexpr_subnormal<float, true>(r, "float");
+        constexpr_subnormal<double, false>(r, "double");
+        constexpr_subnormal<double, true>(r, "double");
     });
     return m.run();
 }
